@@ -5,7 +5,11 @@ import "math/big"
 // Eval computes the value of t under an assignment of its variables (missing
 // variables are 0). It returns nil if t contains an uninterpreted function.
 func Eval(c *Ctx, t *Term, env map[string]*big.Int) *big.Int {
-	memo := map[int]*big.Int{}
+	return EvalMemo(c, t, env, map[int]*big.Int{})
+}
+
+// EvalMemo is Eval with a caller-owned memo table (valid for one env).
+func EvalMemo(c *Ctx, t *Term, env map[string]*big.Int, memo map[int]*big.Int) *big.Int {
 	var ev func(t *Term) *big.Int
 	ev = func(t *Term) *big.Int {
 		if v, ok := memo[t.ID]; ok {
